@@ -79,19 +79,20 @@ Proof.
 Qed.
 
 Section RL.
+  Variable brk : bool.
   Variable eager : bool.
   Variable B : nat.
   Hypothesis HB : 2 <= B.
 
   Lemma rl_fit l rest : nolf l -> length l < B ->
-    read_line eager B (l ++ LF :: rest) = RLine (strip_cr l) false rest.
-  Proof. intros H L. unfold read_line. rewrite rs_line; auto. Qed.
+    read_line_t brk eager B (l ++ LF :: rest) = RLine (strip_cr l) false rest.
+  Proof. intros H L. unfold read_line_t. rewrite rs_line; auto. Qed.
 
   Lemma rl_big l rest : nolf l -> B <= length l ->
-    exists c l', read_line eager B (l ++ LF :: rest) = RLine c true (l' ++ LF :: rest)
+    exists c l', read_line_t brk eager B (l ++ LF :: rest) = RLine c true (l' ++ LF :: rest)
                  /\ nolf l' /\ length l' < length l.
   Proof.
-    intros H L. unfold read_line. rewrite rs_full; auto.
+    intros H L. unfold read_line_t. rewrite rs_full; auto.
     destruct (drop_last_cr (firstn B l)) as [i|] eqn:E.
     - exists i, (CR :: skipn B l). split; [reflexivity|]. split.
       + apply nolf_cr, nolf_skipn, H.
@@ -101,13 +102,13 @@ Section RL.
       + rewrite skipn_length. lia.
   Qed.
 
-  Lemma rl_nil : read_line eager B [] = REof.
-  Proof. unfold read_line. destruct B; [lia|]. reflexivity. Qed.
+  Lemma rl_nil : read_line_t brk eager B [] = if brk then RBroken else REof.
+  Proof. unfold read_line_t. destruct B; [lia|]. reflexivity. Qed.
 
   Lemma rl_tail_fit tl : tl <> [] -> nolf tl -> tail_fits eager B tl = true ->
-    read_line eager B tl = RLine tl false [].
+    read_line_t brk eager B tl = RLine tl false [].
   Proof.
-    intros NE H F. unfold read_line, tail_fits in *.
+    intros NE H F. unfold read_line_t, tail_fits in *.
     apply orb_true_iff in F. destruct F as [F|F].
     - apply Nat.ltb_lt in F. rewrite rs_tail_short; auto. destruct tl; [congruence|reflexivity].
     - apply andb_true_iff in F. destruct F as [F1 F2]. apply Nat.eqb_eq in F2. subst eager.
@@ -115,9 +116,9 @@ Section RL.
   Qed.
 
   Lemma rl_tail_big tl : nolf tl -> tail_fits eager B tl = false ->
-    exists c l', read_line eager B tl = RLine c true l' /\ nolf l' /\ length l' < length tl.
+    exists c l', read_line_t brk eager B tl = RLine c true l' /\ nolf l' /\ length l' < length tl.
   Proof.
-    intros H F. unfold read_line, tail_fits in *.
+    intros H F. unfold read_line_t, tail_fits in *.
     apply orb_false_iff in F. destruct F as [F1 F2]. apply Nat.ltb_ge in F1.
     destruct (Nat.eq_dec (length tl) B) as [EQ|NEQ].
     - rewrite (proj2 (Nat.eqb_eq _ _) EQ) in F2. rewrite andb_true_r in F2. subst eager.
@@ -137,14 +138,17 @@ Section RL.
 
   (* -------------------------------------------------------------- the skip loop *)
 
+  (* an unterminated rest is skipped to the end of the stream; a broken stream may also end the
+     loop by its error (when the chunks end exactly at the break) *)
   Lemma skip_big_tail : forall m tl f, length tl <= m -> nolf tl -> length tl < f ->
-    skip_big eager B f tl = Ok [].
+    skip_big_t brk eager B f tl = Ok [] \/ (brk = true /\ skip_big_t brk eager B f tl = Fail).
   Proof.
     induction m; intros tl f L H F.
-    - destruct tl; [|simpl in L; lia]. destruct f; [lia|]. simpl. rewrite rl_nil. reflexivity.
+    - destruct tl; [|simpl in L; lia]. destruct f; [lia|]. simpl. rewrite rl_nil.
+      destruct brk; [right; split; reflexivity|left; reflexivity].
     - destruct f; [lia|]. simpl.
       destruct tl as [|c0 t0] eqn:ET.
-      + rewrite rl_nil. reflexivity.
+      + rewrite rl_nil. destruct brk; [right; split; reflexivity|left; reflexivity].
       + rewrite <- ET in *. assert (NE : tl <> []) by (rewrite ET; discriminate).
         destruct (tail_fits eager B tl) eqn:TF.
         * rewrite rl_tail_fit; auto.
@@ -153,11 +157,11 @@ Section RL.
   Qed.
 
   Lemma skip_big_line : forall m l rest f, length l <= m -> nolf l -> length l < f ->
-    skip_big eager B f (l ++ LF :: rest) = Ok rest.
+    skip_big_t brk eager B f (l ++ LF :: rest) = Ok rest.
   Proof.
     induction m; intros l rest f L H F.
     - destruct l; [|simpl in L; lia]. destruct f; [lia|].
-      assert (R : read_line eager B (LF :: rest) = RLine (strip_cr []) false rest)
+      assert (R : read_line_t brk eager B (LF :: rest) = RLine (strip_cr []) false rest)
         by (apply (rl_fit [] rest); [apply nolf_nil|simpl; lia]).
       simpl. rewrite R. reflexivity.
     - destruct f; [lia|]. simpl.
